@@ -311,3 +311,81 @@ V("C08", "compact-separator", "fire", (RW, "separator = \",\\n\" if self.pretty_
   "compact form loses the commas", "_collection/layout-only")
 V("C08", "pretty-indent-4-silent", "silent", (RW, "self.level += 2", "self.level += 4"), "layout only")
 V("C08", "string-helper-renamed-silent", "silent", (RW, "_string", "_json_str", 15), "wrapper renamed")
+
+# ------------------------------------------------------------------ C10
+SCANCMD = "codelimit/commands/scan.py"
+TRY_READ = """        try:
+            cached_report = ReportReader.from_json(report_path.read_text())
+        except Exception:
+            return None
+"""
+V("C10", "parse-unguarded", "fire", (SCANCMD, TRY_READ, "        cached_report = ReportReader.from_json(report_path.read_text())\n"),
+  "pre-fix: a truncated cache crashes every later scan", "_read_cached_report/parse")
+V("C10", "handler-keyerror-only", "fire", (SCANCMD, "        except Exception:\n            return None\n", "        except KeyError:\n            return None\n"),
+  "empty / truncated file raises ValueError", "ValueError")
+V("C10", "handler-valueerror-only", "fire", (SCANCMD, "        except Exception:\n            return None\n", "        except ValueError:\n            return None\n"),
+  "JSON of the wrong shape raises KeyError/TypeError", "KeyError")
+V("C10", "handler-explicit-tuple-silent", "silent", (SCANCMD, "        except Exception:\n", "        except (ValueError, LookupError, TypeError, AttributeError, OSError):\n"),
+  "explicit complete tuple")
+V("C10", "read-outside-try", "fire", (SCANCMD, TRY_READ, """        text = report_path.read_text()
+        try:
+            cached_report = ReportReader.from_json(text)
+        except Exception:
+            return None
+"""), "a write cut inside a multi-byte character raises UnicodeDecodeError outside the handler", "UnicodeDecodeError")
+V("C10", "handler-reraises", "fire", (SCANCMD, "        except Exception:\n            return None\n", "        except Exception:\n            raise\n"), "handler re-raises", "handler-reraises")
+V("C10", "write-only-new-dir", "fire", (SCANCMD, "    report_path.write_text(ReportWriter(report).to_json())\n", "        report_path.write_text(ReportWriter(report).to_json())\n"),
+  "report only written when the cache directory was just created: a damaged cache is never replaced", "conditional-write")
+V("C10", "mkdir-unguarded", "fire", (SCANCMD, "    if not cache_dir.exists():\n        cache_dir.mkdir()\n", "    cache_dir.mkdir()\n    if True:\n"),
+  "second scan fails with FileExistsError", "mkdir-unguarded")
+V("C10", "atomic-replace-silent", "silent", (SCANCMD, "    report_path.write_text(ReportWriter(report).to_json())\n",
+                                              "    tmp_path = report_path.with_suffix(\".tmp\")\n    tmp_path.write_text(ReportWriter(report).to_json())\n    tmp_path.replace(report_path)\n"),
+  "atomic replace through a truncating temp file is accepted")
+V("C10", "reader-skips-bad-records", "fire", (RR, """            codebase.add_file(
+                SourceFileEntry(k, v["checksum"], v["language"], v["loc"], measurements)
+            )
+""", """            try:
+                codebase.add_file(
+                    SourceFileEntry(k, v["checksum"], v["language"], v["loc"], measurements)
+                )
+            except TypeError:
+                pass
+"""), "partially registered entries escape", "swallowing-handler")
+
+# ------------------------------------------------------------------ C09
+SCN = "codelimit/common/Scanner.py"
+UT = "codelimit/utils.py"
+V("C09", "reuse-without-checksum", "fire", (SCN, "    if cached_entry and cached_entry.checksum() == checksum:", "    if cached_entry:"),
+  "modified file keeps its old measurements", "reuse-unguarded")
+V("C09", "reuse-checksum-self", "fire", (SCN, "    if cached_entry and cached_entry.checksum() == checksum:", "    if cached_entry and cached_entry.checksum() == cached_entry.checksum():"),
+  "guard compares the cache with itself", "reuse-unguarded")
+V("C09", "lookup-by-basename", "fire", (SCN, "            cached_entry = cached_report.codebase.files[rel_path]", "            cached_entry = cached_report.codebase.files[os.path.basename(path)]"),
+  "entry of another directory's file with the same name", "lookup-key")
+V("C09", "version-guard-removed", "fire", (SCANCMD, "        if cached_report and cached_report.version == Report.VERSION:", "        if cached_report:"),
+  "cache of any version reused", "no-version-guard")
+V("C09", "version-not-restored", "fire", (RR, "        report.version = d[\"version\"] if \"version\" in d else None\n", ""),
+  "pre-fix: guard compares the running version with itself", "version-guard-ineffective")
+V("C09", "version-guard-on-document-silent", "silent", (SCANCMD, """        try:
+            cached_report = ReportReader.from_json(report_path.read_text())
+        except Exception:
+            return None
+        if cached_report and cached_report.version == Report.VERSION:
+            return cached_report
+""", """        try:
+            text = report_path.read_text()
+            if ReportReader.get_report_version(text) != Report.VERSION:
+                return None
+            return ReportReader.from_json(text)
+        except Exception:
+            return None
+"""), "guard evaluated on the document text")
+V("C09", "read-report-no-refusal", "fire", (UT, "    if report_version != Report.VERSION:\n        console.print(\"[red]Report version mismatch, run scan first[/red]\")\n        raise typer.Exit(code=1)\n    return ReportReader.from_json(report_data)",
+                                            "    if report_version != Report.VERSION:\n        console.print(\"[red]Report version mismatch, run scan first[/red]\")\n    return ReportReader.from_json(report_data)"),
+  "mismatch only warns", "read_report")
+V("C09", "diff-report-bypasses", "fire", ("codelimit/commands/report.py", "    diff_report = read_report(diff_path, stdout) if diff_path else None",
+                                         "    diff_report = ReportReader.from_json(diff_path.read_text()) if diff_path else None"),
+  "the --diff report is read without the version check", "report_command")
+VARIANTS[-1]["edits"].append(("codelimit/commands/report.py", "from codelimit.utils import read_report, make_report_path\n",
+                              "from codelimit.utils import read_report, make_report_path\nfrom codelimit.common.report.ReportReader import ReportReader\n"))
+V("C09", "result-seeded-from-cache", "fire", (SCN, "    result = Codebase(str(path.resolve().absolute()))\n", "    result = cached_report.codebase if cached_report else Codebase(str(path.resolve().absolute()))\n"),
+  "deleted files survive from the cache", "scan_path/result")
